@@ -458,6 +458,16 @@ class Extractor:
             edits.append((toks[bo].s, toks[bo].s, '\n' + indent(spec, 8) + '\n    ', 'E8:spec'))
 
         body_lo, body_hi = bo + 1, bc
+        # ---- E10: `mut self` receiver (unsupported by Verus) -> `self` + `let mut __self = self;`, body renamed
+        if toks[par + 1].text == 'mut' and toks[par + 2].text == 'self' and not f.external_body:
+            edits.append((toks[par + 1].s, toks[par + 2].s, '', 'E10'))
+            edits.append((toks[bo].e, toks[bo].e, ' let mut __self = self; ', 'E10'))
+            for ti in range(body_lo, body_hi):
+                if toks[ti].kind == 'id' and toks[ti].text == 'self':
+                    edits.append((toks[ti].s, toks[ti].e, '__self', 'E10'))
+            self.log('E10', what, 'mut self', 'self + `let mut __self = self;` (body renamed)')
+        elif toks[par + 1].text == 'mut' and toks[par + 2].text == 'self':
+            edits.append((toks[par + 1].s, toks[par + 2].s, '', 'E10'))
         if f.external_body:
             # body replaced: contract is trusted, body not verified
             edits.append((toks[bo].e, toks[bc].s, ' unimplemented!() ', 'TRUSTED'))
@@ -933,3 +943,9 @@ def build_unit(unit, repo, unit_dir, canary=False):
     out.add('} // verus!\nfn main() {}', ('prelude', 'footer'))
     text, origins = out.render()
     return text, origins, ex, contracted
+
+
+def as_contract(f, reason):
+    """the same function, used through its contract only (body not verified in this unit)"""
+    return Fn(f.file, f.impl, f.name, ret=f.ret, spec=f.spec, generics_dyn=f.generics_dyn, external_body=True,
+              trusted_reason=reason, as_inherent=f.as_inherent, sig_replace=f.sig_replace)
